@@ -51,6 +51,17 @@ fn strategy(tier: Tier) -> BoxedStrategy<Case> {
         .boxed()
 }
 
+/// Quotient filters holding one run of 40..220 classes (see `c13::long_run_case`), as plain insert histories.
+fn long_run_strategy() -> BoxedStrategy<Case> {
+    (7usize..=10, prop_oneof![Just(7usize), Just(8), Just(16), Just(100usize)], any::<u16>(), 40u16..220, 0u8..4, prop_oneof![3 => Just(0u8), 1 => 1u8..3], any::<u64>())
+        .prop_map(|(q, rcode, base, len, followers, back, seed)| {
+            let c = super::c13::long_run_case(q, rcode, base, len, followers, back, seed);
+            let none = RngSpec { script: vec![], tail: 0 };
+            Case { cfg: FCfg::Quotient { q: c.q, r: c.r }, hk: c.hk, rng: none.clone(), rng2: none, universe: c.universe, ops: c.ops.into_iter().map(Op::Insert).collect() }
+        })
+        .boxed()
+}
+
 pub struct C01;
 
 impl Check for C01 {
@@ -197,11 +208,11 @@ pub fn checks() -> Vec<Box<dyn DynCheck>> {
 }
 
 pub fn run(ctx: &Ctx) {
-    ctx.set_rule("generated: filter kind x configuration x BuildHasher family (Ident/Split/Sip/Seeded/Mix/Const/Mod) x scripted eviction RNG x colliding key universe (<=48 keys) x history of insert/delete/union/clear (<=80 quick, <=600 thorough); after every op every key the model holds must be queried true. Non-trivial: >=1 successful insert and one of {failed insert, failed union, successful union into a non-empty filter, cuckoo insert that drew RNG words, cuckoo delete with other members remaining, Bloom Ok(false) for a new key}. Distinct = hash of the whole case. evaluations counts operations executed (each followed by a full model sweep). extend_path: default-hasher BloomFilter (m 1..512, k 1..8) fed through Extend::extend in generated chunks (incl. empty ones): no false negative after any chunk, and query/len/is_empty equal to a filter filled by insert calls. giant_tables: Bloom filters of 2^31+11, 2^32+15 and 2^33 bits (k = 3, 4, 2) with 200 inserted keys: no false negative, at most one of 200 probes reported present.");
+    ctx.set_rule("generated: filter kind x configuration x BuildHasher family (Ident/Split/Sip/Seeded/Mix/Const/Mod) x scripted eviction RNG x colliding key universe (<=48 keys) x history of insert/delete/union/clear (<=80 quick, <=600 thorough); after every op every key the model holds must be queried true. Non-trivial: >=1 successful insert and one of {failed insert, failed union, successful union into a non-empty filter, cuckoo insert that drew RNG words, cuckoo delete with other members remaining, Bloom Ok(false) for a new key}. Distinct = hash of the whole case. evaluations counts operations executed (each followed by a full model sweep). extend_path: default-hasher BloomFilter (m 1..512, k 1..8) fed through Extend::extend in generated chunks (incl. empty ones): no false negative after any chunk, and query/len/is_empty equal to a filter filled by insert calls. giant_tables: Bloom filters of 2^31+11, 2^32+15 and 2^33 bits (k = 3, 4, 2) with 200 inserted keys: no false negative, at most one of 200 probes reported present. 2.5 % of the histories are quotient filters of 2^7..2^10 slots holding one run of 40..220 classes (whole 64-slot blocks of continuation bits).");
     ctx.assume("model: multiset of keys whose insert returned Ok since the last clear, minus deletes of currently inserted keys, plus the other operand's keys after a successful union");
     ctx.run_regressions(&[&C01]);
     let tier = ctx.tier;
-    ctx.run_random(&C01, tier.pick(400_000, 3_000_000), move || strategy(tier));
+    ctx.run_random(&C01, tier.pick(400_000, 3_000_000), move || prop_oneof![40 => strategy(tier), 1 => long_run_strategy()].boxed());
     // the Extend entry point of the default-hasher BloomFilter
     ctx.run_random(&super::extendpaths::ExtBloom, tier.pick(30_000, 300_000), super::extendpaths::bloom_strategy);
     ctx.run_fixed(&super::giant::Giant, super::giant::bloom_cases(ctx.seed));
